@@ -167,3 +167,10 @@ def install(X):
     def _(interp, f, args, kwargs):
         interp.path.event("factory_call", f)
         return Opaque("buffer", fresh_name("buf"))
+
+
+    @X.register("filelock.SoftFileLock")
+    def _(interp, args, kwargs):
+        interp.note_assumption("SoftFileLock(path): at most one holder per path at a time across processes; "
+                               "released on context exit, normal or exceptional")
+        return EventCM("lock", args[0], None)
